@@ -191,3 +191,156 @@ Check C18_reset_numbers.
 Print Assumptions C18_reset_numbers.
 Check C18_foreign_family_prefix.
 Print Assumptions C18_foreign_family_prefix.
+
+(* ------------------------------------------------------------------ with rotation, NumbersDirect naming; proofs in Flw/ReopenRotD.v *)
+Require Import FL.Flw.NumDInv FL.Flw.NumDRun FL.Flw.NumDForeign FL.Flw.ReopenRotD.
+
+(* closed1 ++ [cur1]: the files r00000 .. r<L> that ops1 leaves; the current file r<L> is renamed to a name that is no numbered
+   name of the family, then reopen_outputfile(): the call succeeds; the renamed file holds exactly what was written since the
+   last rotation (buffered tail included); the closed files are untouched; the records of ops2 go to a NEW file at the original
+   path (the same number L) and further numbers; nothing is lost or duplicated *)
+Theorem C18_reopen_numbersdirect c crit t0 off ops1 ops2 moved closed1 cur1 :
+  numdcfg c crit -> Forall basic_op ops1 -> Forall basic_op ops2 -> fresh_name_d c moved ->
+  direct_view c (wfs (s_w (fst (run (sys0 t0 off) (OStart c :: ops1 ++ [OStop]))))) (closed1 ++ [cur1]) ->
+  let cur := rname c (length closed1) in
+  let r := run (sys0 t0 off) (OStart c :: ops1 ++ [OExtRename cur moved; OReopen] ++ ops2 ++ [OStop]) in
+  let f := wfs (s_w (fst r)) in
+  nth_error (snd r) (S (S (length ops1))) = Some (ObsRes 0 false)
+  /\ concat closed1 ++ cur1 = written ops1
+  /\ exists closed2 cur2,
+       dir_holds f (numbered c 0 (closed1 ++ closed2 ++ [cur2]) ++ [(moved, cur1)])
+       /\ In (cur, hd [] (closed2 ++ [cur2])) (numbered c 0 (closed1 ++ closed2 ++ [cur2]))
+       /\ concat closed2 ++ cur2 = written ops2
+       /\ concat (closed1 ++ [cur1] ++ closed2 ++ [cur2]) = written (ops1 ++ ops2).
+Proof. exact (reopen_numbersdirect c crit t0 off ops1 ops2 moved closed1 cur1). Qed.
+
+Theorem C18_reopen_numbersdirect_partition c m t0 off ops1 ops2 moved closed1 cur1 :
+  numdcfg c (CSize m) -> Forall basic_op ops1 -> Forall basic_op ops2 -> fresh_name_d c moved ->
+  expected_files m None (items false ops1) = closed1 ++ [cur1] ->
+  let r := run (sys0 t0 off) (OStart c :: ops1 ++ [OExtRename (rname c (length closed1)) moved; OReopen] ++ ops2 ++ [OStop]) in
+  exists h tl,
+    partition m [] cur1 (items true ops2) = (cur1 ++ h) :: tl
+    /\ dir_holds (wfs (s_w (fst r))) (numbered c 0 (closed1 ++ h :: tl) ++ [(moved, cur1)]).
+Proof. exact (reopen_numbersdirect_partition c m t0 off ops1 ops2 moved closed1 cur1). Qed.
+
+Theorem C18_reopen_numbersdirect_at_once c crit t0 off ops1 moved closed1 cur1 :
+  numdcfg c crit -> Forall basic_op ops1 -> fresh_name_d c moved ->
+  direct_view c (wfs (s_w (fst (run (sys0 t0 off) (OStart c :: ops1 ++ [OStop]))))) (closed1 ++ [cur1]) ->
+  let f := wfs (s_w (fst (run (sys0 t0 off) (OStart c :: ops1 ++ [OExtRename (rname c (length closed1)) moved; OReopen])))) in
+  concat closed1 ++ cur1 = written ops1
+  /\ dir_holds f (numbered c 0 (closed1 ++ [[]]) ++ [(moved, cur1)]).
+Proof. exact (reopen_numbersdirect_at_once c crit t0 off ops1 moved closed1 cur1). Qed.
+
+Theorem C18_reopen_numbersdirect_in_place c crit t0 off ops1 ops2 :
+  numdcfg c crit -> Forall basic_op ops1 -> Forall basic_op ops2 ->
+  let r := run (sys0 t0 off) (OStart c :: ops1 ++ [OReopen] ++ ops2 ++ [OStop]) in
+  let f := wfs (s_w (fst r)) in
+  nth_error (snd r) (S (length ops1)) = Some (ObsRes 0 false)
+  /\ exists files1 files,
+       direct_view c (wfs (s_w (fst (run (sys0 t0 off) (OStart c :: ops1 ++ [OStop]))))) files1
+       /\ concat files1 = written ops1
+       /\ direct_view c f files /\ concat files = written (ops1 ++ ops2)
+       /\ (forall closed1 cur1, files1 = closed1 ++ [cur1] -> exists t rest, files = closed1 ++ (cur1 ++ t) :: rest)
+       /\ (forall m, crit = CSize m -> files = expected_files m None (items false (ops1 ++ ops2))).
+Proof. exact (reopen_numbersdirect_in_place c crit t0 off ops1 ops2). Qed.
+
+Theorem C18_reset_numbersdirect c crit c2 crit2 t0 off ops1 ops2 :
+  numdcfg c crit -> numdcfg c2 crit2 -> c_cap c2 = c_cap c -> foreign_family_d c c2 ->
+  Forall basic_op ops1 -> Forall basic_op ops2 ->
+  let r := run (sys0 t0 off) (OStart c :: ops1 ++ [OReset c2] ++ ops2 ++ [OStop]) in
+  nth_error (snd r) (S (length ops1)) = Some (ObsRes 0 false)
+  /\ exists files1 files2,
+       direct_view c (wfs (s_w (fst (run (sys0 t0 off) (OStart c :: ops1 ++ [OStop]))))) files1
+       /\ concat files1 = written ops1
+       /\ concat files2 = written ops2
+       /\ (forall m, crit = CSize m -> files1 = expected_files m None (items false ops1))
+       /\ (forall m2, crit2 = CSize m2 -> files2 = expected_files m2 None (items false ops2))
+       /\ dir_holds (wfs (s_w (fst r))) (numbered c 0 files1 ++ numbered c2 0 files2).
+Proof. exact (reset_numbersdirect c crit c2 crit2 t0 off ops1 ops2). Qed.
+
+Check C18_reopen_numbersdirect.
+Print Assumptions C18_reopen_numbersdirect.
+Check C18_reopen_numbersdirect_partition.
+Print Assumptions C18_reopen_numbersdirect_partition.
+Check C18_reopen_numbersdirect_at_once.
+Print Assumptions C18_reopen_numbersdirect_at_once.
+Check C18_reopen_numbersdirect_in_place.
+Print Assumptions C18_reopen_numbersdirect_in_place.
+Check C18_reset_numbersdirect.
+Print Assumptions C18_reset_numbersdirect.
+
+(* ------------------------------------------------------------------ with rotation, TimestampsDirect naming; proofs in Flw/ReopenRotTsd.v *)
+Require Import FL.Flw.TsTime FL.Flw.TsNames FL.Flw.TsInv FL.Flw.TsRun FL.Flw.TsTheorems FL.Flw.TsdInv FL.Flw.TsdRun FL.Flw.TsForeignFacts FL.Flw.ReopenRotTsd.
+Local Open Scope Z_scope.
+
+(* keys1, closed1 ++ [cur1]: keys and contents of the files that ops1 leaves; the current file (the newest key) is renamed to a
+   name outside the family, then reopen_outputfile(): the new file at the original path has the same key (time stamp and restart
+   counter); a rotation in the same second takes the next restart counter; the keys of the family are those of keys_ok *)
+Theorem C18_reopen_timestampsdirect c crit t0 off ops1 ops2 moved keys1 closed1 cur1 :
+  tsdcfg c crit -> tag_ok c -> Forall basic_op ops1 -> Forall basic_op ops2 -> Forall tick_ok (ops1 ++ ops2) ->
+  (0 <= t0 + ts_e c off) -> (t0 + elapsed (ops1 ++ ops2) + ts_e c off < sec_max) ->
+  (N.of_nat (length (ops1 ++ ops2)) <= usize_max)%N ->
+  tsd_member c moved = false ->
+  let e := ts_e c off in
+  tsd_view c e (wfs (s_w (fst (run (sys0 t0 off) (OStart c :: ops1 ++ [OStop]))))) keys1 (closed1 ++ [cur1]) ->
+  keys_ok keys1 -> (forall k, In k keys1 -> (t0 <= fst k <= t0 + elapsed ops1)) ->
+  let cur := kname c e (nth (length closed1) keys1 kd) in
+  let r := run (sys0 t0 off) (OStart c :: ops1 ++ [OExtRename cur moved; OReopen] ++ ops2 ++ [OStop]) in
+  let f := wfs (s_w (fst r)) in
+  nth_error (snd r) (S (S (length ops1))) = Some (ObsRes 0 false)
+  /\ concat closed1 ++ cur1 = written ops1
+  /\ exists keys2 closed2 cur2,
+       tsdx_view c e f (keys1 ++ keys2) (closed1 ++ closed2 ++ [cur2]) [(moved, cur1)]
+       /\ keys_ok (keys1 ++ keys2)
+       /\ (forall k, In k (keys1 ++ keys2) -> (t0 <= fst k <= t0 + elapsed (ops1 ++ ops2)))
+       /\ length keys1 = S (length closed1)
+       /\ concat closed2 ++ cur2 = written ops2
+       /\ concat (closed1 ++ [cur1] ++ closed2 ++ [cur2]) = written (ops1 ++ ops2).
+Proof. exact (reopen_timestampsdirect c crit t0 off ops1 ops2 moved keys1 closed1 cur1). Qed.
+
+Theorem C18_reopen_timestampsdirect_in_place c crit t0 off ops1 ops2 :
+  tsdcfg c crit -> tag_ok c -> Forall basic_op ops1 -> Forall basic_op ops2 -> Forall tick_ok (ops1 ++ ops2) ->
+  (0 <= t0 + ts_e c off) -> (t0 + elapsed (ops1 ++ ops2) + ts_e c off < sec_max) ->
+  (N.of_nat (length (ops1 ++ ops2)) <= usize_max)%N ->
+  let e := ts_e c off in
+  let r := run (sys0 t0 off) (OStart c :: ops1 ++ [OReopen] ++ ops2 ++ [OStop]) in
+  let f := wfs (s_w (fst r)) in
+  nth_error (snd r) (S (length ops1)) = Some (ObsRes 0 false)
+  /\ exists keys1 files1 keys files,
+       tsd_view c e (wfs (s_w (fst (run (sys0 t0 off) (OStart c :: ops1 ++ [OStop]))))) keys1 files1
+       /\ concat files1 = written ops1
+       /\ tsd_view c e f keys files /\ keys_ok keys
+       /\ (forall k, In k keys -> (t0 <= fst k <= t0 + elapsed (ops1 ++ ops2)))
+       /\ concat files = written (ops1 ++ ops2)
+       /\ (exists tl, keys = keys1 ++ tl)
+       /\ (forall closed1 cur1, files1 = closed1 ++ [cur1] -> exists t rest, files = closed1 ++ (cur1 ++ t) :: rest)
+       /\ (forall m, crit = CSize m -> files = expected_files m None (items false (ops1 ++ ops2))).
+Proof. exact (reopen_timestampsdirect_in_place c crit t0 off ops1 ops2). Qed.
+
+Theorem C18_reset_timestampsdirect c crit c2 crit2 t0 off ops1 ops2 :
+  tsdcfg c crit -> tsdcfg c2 crit2 -> tag_ok c -> tag_ok c2 -> c_cap c2 = c_cap c ->
+  foreign_family_tsd c c2 (ts_e c off) ->
+  Forall basic_op ops1 -> Forall basic_op ops2 -> Forall tick_ok (ops1 ++ ops2) ->
+  (0 <= t0 + ts_e c off) -> (t0 + elapsed ops1 + ts_e c off < sec_max) ->
+  (0 <= t0 + elapsed ops1 + ts_e c2 off) -> (t0 + elapsed (ops1 ++ ops2) + ts_e c2 off < sec_max) ->
+  (N.of_nat (length (ops1 ++ ops2)) <= usize_max)%N ->
+  let r := run (sys0 t0 off) (OStart c :: ops1 ++ [OReset c2] ++ ops2 ++ [OStop]) in
+  nth_error (snd r) (S (length ops1)) = Some (ObsRes 0 false)
+  /\ exists keys1 files1 keys2 files2,
+       tsd_view c (ts_e c off) (wfs (s_w (fst (run (sys0 t0 off) (OStart c :: ops1 ++ [OStop]))))) keys1 files1
+       /\ keys_ok keys1 /\ (forall k, In k keys1 -> (t0 <= fst k <= t0 + elapsed ops1))
+       /\ concat files1 = written ops1
+       /\ length keys2 = length files2 /\ keys_ok keys2
+       /\ (forall k, In k keys2 -> (t0 + elapsed ops1 <= fst k <= t0 + elapsed (ops1 ++ ops2)))
+       /\ concat files2 = written ops2
+       /\ (forall m, crit = CSize m -> files1 = expected_files m None (items false ops1))
+       /\ (forall m2, crit2 = CSize m2 -> files2 = expected_files m2 None (items false ops2))
+       /\ dir_holds (wfs (s_w (fst r))) (keyed c (ts_e c off) keys1 files1 ++ keyed c2 (ts_e c2 off) keys2 files2).
+Proof. exact (reset_timestampsdirect c crit c2 crit2 t0 off ops1 ops2). Qed.
+
+Check C18_reopen_timestampsdirect.
+Print Assumptions C18_reopen_timestampsdirect.
+Check C18_reopen_timestampsdirect_in_place.
+Print Assumptions C18_reopen_timestampsdirect_in_place.
+Check C18_reset_timestampsdirect.
+Print Assumptions C18_reset_timestampsdirect.
